@@ -23,6 +23,7 @@ RULE = ("Generated: portfolio of 2-6 assets (all LP classes, order books, scaled
         "extract_output gives for the ORIGINAL portfolio evaluated at the transferred vector. Non-trivial: >= 3 "
         "assets, renaming or permutation not the identity, and (numeric names with an asset of > 11 variables, or a "
         "non-identity permutation, or a structured asset). Distinct = distinct spec hash.")
+RULE += (" 1 in 6 cases is a LinkedAsset (two plants and an unrelated contract with its own window inside the wrapped portfolio): the order and names of the wrapped assets are changed, oracle: optimal value unchanged. The name pool contains 'slp_step'. Structured assets may have two external nodes.")
 ASSUMPTIONS = ["names are non-empty, distinct and contain no parentheses (the dispatch column label '<asset> (<node>)' "
                "would otherwise be ambiguous by construction of the output format)",
                "tolerance 4e-5*(1+|V|) between the two solves"]
